@@ -179,6 +179,8 @@ var mutantCatalogue = map[string][]mutant{
 		{Name: "memory read charged on the wrong test", File: "proc/mvp1/cpu.go", Old: "\tif len(addrs) != 0 {", New: "\tif len(addrs) == 4 {"},
 		{Name: "MVP-2 fetch above MemoryAccess", File: "proc/mvp2/cpu.go", Old: "m.cycle += latency.L1Access", New: "m.cycle += latency.MemoryAccess + 1"},
 		{Name: "counter decremented", File: "proc/mvp6-1/cpu.go", Old: "\t\t\tcycle += latency.Flush\n", New: "\t\t\tcycle -= latency.Flush\n"},
+		{Name: "result-dependent latency", File: "proc/mvp1/cpu.go", Old: "\t\tif exe.RegisterChange {\n\t\t\tm.ctx.WriteRegister(exe)", New: "\t\tif exe.RegisterValue == 0 {\n\t\t\tm.cycle++\n\t\t}\n\t\tif exe.RegisterChange {\n\t\t\tm.ctx.WriteRegister(exe)"},
+		{Name: "early-out on a zero operand", File: "proc/mvp4/eu.go", Old: "\teu.remainingCycles--\n\tif eu.remainingCycles != 0 {", New: "\tif ctx.Registers[risc.T0] == 0 {\n\t\teu.remainingCycles = 1\n\t}\n\teu.remainingCycles--\n\tif eu.remainingCycles != 0 {"},
 		{Name: "lh in the one-cycle class", File: "risc/risc.go", Old: "\tcase Lh:\n\t\treturn 50", New: "\tcase Lh:\n\t\treturn 1"},
 		{Name: "always flush on a taken branch", File: "proc/mvp5/bu.go", Old: "return bu.expectation != pc", New: "return true"},
 	},
